@@ -21,10 +21,14 @@ CONSTANTS
     YearLen,     \* seconds per model year when interest accrues (stamps are multiples of it), 0 when no interest
     Thr,         \* rebalancing threshold (Rat)
     MaxSteps,
+    ResetAnywhere, \* BOOLEAN: reset enabled in every phase (abandoned / failed / repeated episodes)
+    ClockScope,  \* "process" (pinned code: the chain reads the process-wide contract clock) | "restored_on_entry"
     RuinStep     \* "raise" (pinned code) | "done" (the property)
 
-VARIABLES cfg, env, st, h, track, elog, ret, hist
-vars == <<cfg, env, st, h, track, elog, ret, hist>>
+\* gnow is the process-wide contract clock (AbstractContract.now): every notification of ANY environment of the
+\* process sets it, and futures chains resolve their lead contract from it
+VARIABLES cfg, env, st, h, track, elog, ret, hist, gnow
+vars == <<cfg, env, st, h, track, elog, ret, hist, gnow>>
 
 NoT == -1
 Ev(i) == [id |-> i, t |-> Events[i].t, kind |-> Events[i].kind, c |-> Events[i].c,
@@ -38,7 +42,7 @@ LeadOk(now) == LeadIdx(now) <= Len(ChainSeq)
 Notify(s, ev) ==
     LET led == IF ev.kind = "q" THEN QuoteF(s.st, ev.c, RM(ev.bid), RM(ev.ask))
                ELSE IF ev.kind = "d" THEN DiscontinueF(s.st, ev.c) ELSE s.st
-    IN  [env |-> [s.env EXCEPT !.now = ev.t], st |-> led, log |-> Append(s.log, ev.id)]
+    IN  [env |-> [s.env EXCEPT !.now = ev.t], st |-> led, log |-> Append(s.log, ev.id), gnow |-> ev.t]
 
 RECURSIVE NotifyAll(_, _)
 NotifyAll(s, evs) == IF evs = <<>> THEN s ELSE NotifyAll(Notify(s, Head(evs)), Tail(evs))
@@ -68,23 +72,28 @@ Init ==
     /\ elog = <<>>
     /\ ret = [call |-> "none", out |-> "ok", done |-> FALSE]
     /\ hist = <<>>
+    /\ gnow = NoT
 
 Reset ==
-    /\ env.k = 0
+    /\ (env.k = 0 \/ ResetAnywhere)
+    /\ Len(SelectSeq(hist, LAMBDA r : r.call = "reset")) < 2
     /\ LET e0 == [steps |-> cfg.fsteps, k |-> 1, pendL |-> <<>>, pendN |-> <<>>, now |-> NoT,
                   queue |-> [i \in 1..cfg.delay |-> NullTarget], done |-> FALSE, j |-> 0, ruined |-> FALSE]
            b  == Batch(cfg, cfg.part, cfg.fsteps, 1)
-           s1 == NotifyAll([env |-> e0, st |-> InitLedger, log |-> <<>>], SortEv(b.L \o b.N))
+           s1 == NotifyAll([env |-> e0, st |-> InitLedger, log |-> <<>>, gnow |-> gnow], SortEv(b.L \o b.N))
            e2 == Fetch(s1.env)
        IN  /\ env' = e2
            /\ st' = s1.st
+           /\ gnow' = s1.gnow
+           /\ h' = H0
+           /\ track' = <<>>
            /\ elog' = s1.log
            /\ ret' = [call |-> "reset", out |-> "ok", done |-> e2.done]
            /\ hist' = Append(hist, [call |-> "reset", target |-> NullTarget, out |-> "ok", done |-> e2.done,
                                     now |-> e2.now, nlv |-> Deposit, pre |-> NaN, post |-> NaN, trades |-> <<>>,
                                     interest |-> Zero, comm |-> Zero, exec |-> NullTarget, pos |-> s1.st.pos,
                                     stamp |-> NoT, entries |-> 0])
-    /\ UNCHANGED <<cfg, h, track>>
+    /\ UNCHANGED cfg
 
 \* independent replay: NLV from deposit, what was paid, fees, interest and the current quotes only
 RECURSIVE SumPos(_, _, _)
@@ -103,67 +112,69 @@ Resolved(tgt, now) ==
 
 AccrualTime(now) == IF YearLen = 0 THEN 0 ELSE now \div YearLen
 
+\* what one step() call does, as a pure function of the current state (evaluated once per successor: the action below
+\* binds it through a singleton set, which keeps TLC from re-evaluating the account arithmetic for every primed variable)
+StepF(tgt) ==
+    IF env.done
+    THEN [env |-> env, st |-> st, h |-> h, track |-> track, log |-> <<>>, gnow |-> gnow,
+          ret |-> [call |-> "step", out |-> "ended", done |-> TRUE],
+          rec |-> [call |-> "step", target |-> tgt, out |-> "ended", done |-> TRUE, now |-> env.now,
+                   nlv |-> NaN, pre |-> NaN, post |-> NaN, trades |-> <<>>, interest |-> Zero,
+                   comm |-> Zero, exec |-> NullTarget, pos |-> st.pos, stamp |-> NoT, entries |-> Len(track)]]
+    ELSE
+    LET q1  == <<tgt>> \o env.queue
+        due == LastOf(q1)
+        e1  == [env EXCEPT !.queue = SubSeq(q1, 1, Len(q1) - 1), !.j = env.j + 1, !.pendL = <<>>]
+        s1  == NotifyAll([env |-> e1, st |-> st, log |-> <<>>, gnow |-> gnow], env.pendL)
+        now1 == s1.env.now
+        \* the clock the chain is resolved with
+        lclk == IF ClockScope = "process" THEN s1.gnow ELSE now1
+        chainOk == "CH" \notin DOMAIN due \/ LeadOk(lclk)
+        req == [alloc |-> IF chainOk THEN Resolved(due, lclk) ELSE <<>>, measure |-> "weight", thr |-> Thr,
+                fractional |-> TRUE]
+        r   == RebalanceF(s1.st, req, AccrualTime(now1))
+        executed == r.out = "ok"
+        brokeNow == r.out = "broke"
+        tradesDone == r.out \in {"ok", "broke"} /\ r.pre # NaN
+        h1 == [paid |-> [c \in C |-> IF tradesDone /\ c \in DOMAIN r.trades
+                                     THEN Add(h.paid[c], Mul(r.trades[c], AcqPrice(s1.st, c, Sign(r.trades[c]))))
+                                     ELSE h.paid[c]],
+               fees |-> Add(h.fees, r.comm), interest |-> Add(h.interest, r.interest)]
+        hpre == [h EXCEPT !.interest = Add(@, r.interest)]
+        track1 == IF executed
+                  THEN Append(track, [time |-> now1, pre |-> r.pre, post |-> r.post, trades |-> r.trades,
+                                      interest |-> r.interest, comm |-> r.comm, alloc |-> req.alloc,
+                                      target |-> due, postpos |-> r.st.pos,
+                                      idealPre |-> Ideal(s1.st, hpre), idealPost |-> Ideal(r.st, h1)])
+                  ELSE track
+        e2  == [s1.env EXCEPT !.done = brokeNow \/ s1.env.done]
+        s2  == NotifyAll([env |-> e2, st |-> r.st, log |-> s1.log, gnow |-> s1.gnow], e2.pendN)
+        e3a == Fetch(s2.env)
+        e3  == [e3a EXCEPT !.done = e3a.done \/ brokeNow]
+        v   == ValueF(s2.st, TRUE)                 \* the reward values the account after the step's market events
+        ruin == v.out = "broke"
+        failed == ~chainOk \/ r.out = "error" \/ v.out = "error"
+        raises == ~failed /\ ruin /\ RuinStep = "raise"      \* pinned code: EndOfEpisodeError escapes from the reward
+        out == IF failed THEN "error" ELSE IF raises THEN "broke" ELSE "ok"
+        dn  == IF failed THEN FALSE ELSE IF raises THEN e3.done ELSE (e3.done \/ ruin)
+    IN  [env |-> IF failed THEN [e3 EXCEPT !.done = TRUE]
+                 ELSE IF raises THEN [e3 EXCEPT !.ruined = TRUE]
+                 ELSE [e3 EXCEPT !.done = e3.done \/ ruin, !.ruined = ruin],
+         st |-> v.st, h |-> h1, track |-> track1, log |-> s2.log, gnow |-> s2.gnow,
+         ret |-> [call |-> "step", out |-> out, done |-> dn],
+         rec |-> [call |-> "step", target |-> tgt, out |-> out, done |-> dn, now |-> e3.now,
+                  nlv |-> v.nlv, pre |-> IF track1 = <<>> THEN NaN ELSE LastOf(track1).pre, post |-> r.post,
+                  trades |-> r.trades, interest |-> r.interest, comm |-> r.comm, exec |-> req.alloc,
+                  pos |-> v.st.pos, stamp |-> IF executed THEN now1 ELSE NoT, entries |-> Len(track1)]]
+
 Step(tgt) ==
     /\ env.k > 0
     /\ env.j < MaxSteps
-    /\ ret.out \notin {"ended", "error"}           \* one refused call is enough; nothing is specified after a failure
-    /\ IF env.done
-       THEN /\ UNCHANGED <<env, st, h, track, elog>>
-            /\ ret' = [call |-> "step", out |-> "ended", done |-> TRUE]
-            /\ hist' = Append(hist, [call |-> "step", target |-> tgt, out |-> "ended", done |-> TRUE, now |-> env.now,
-                                     nlv |-> NaN, pre |-> NaN, post |-> NaN, trades |-> <<>>, interest |-> Zero,
-                                     comm |-> Zero, exec |-> NullTarget, pos |-> st.pos, stamp |-> NoT,
-                                     entries |-> Len(track)])
-       ELSE
-       LET q1  == <<tgt>> \o env.queue
-           due == LastOf(q1)
-           e1  == [env EXCEPT !.queue = SubSeq(q1, 1, Len(q1) - 1), !.j = env.j + 1, !.pendL = <<>>]
-           s1  == NotifyAll([env |-> e1, st |-> st, log |-> <<>>], env.pendL)
-           now1 == s1.env.now
-           chainOk == "CH" \notin DOMAIN due \/ LeadOk(now1)
-           req == [alloc |-> IF chainOk THEN Resolved(due, now1) ELSE <<>>, measure |-> "weight", thr |-> Thr,
-                   fractional |-> TRUE]
-           r   == RebalanceF(s1.st, req, AccrualTime(now1))
-           executed == r.out = "ok"
-           brokeNow == r.out = "broke"
-           tradesDone == r.out \in {"ok", "broke"} /\ r.pre # NaN
-           execp(c) == AcqPrice(s1.st, c, Sign(r.trades[c]))
-           h1 == [paid |-> [c \in C |-> IF tradesDone /\ c \in DOMAIN r.trades
-                                        THEN Add(h.paid[c], Mul(r.trades[c], execp(c))) ELSE h.paid[c]],
-                  fees |-> Add(h.fees, r.comm), interest |-> Add(h.interest, r.interest)]
-           hpre == [h EXCEPT !.interest = Add(@, r.interest)]
-           track1 == IF executed
-                     THEN Append(track, [time |-> now1, pre |-> r.pre, post |-> r.post, trades |-> r.trades,
-                                         interest |-> r.interest, comm |-> r.comm, alloc |-> req.alloc,
-                                         target |-> due, postpos |-> r.st.pos,
-                                         idealPre |-> Ideal(s1.st, hpre), idealPost |-> Ideal(r.st, h1)])
-                     ELSE track
-           e2  == [s1.env EXCEPT !.done = brokeNow \/ s1.env.done]
-           s2  == NotifyAll([env |-> e2, st |-> r.st, log |-> s1.log], e2.pendN)
-           e3a == Fetch(s2.env)
-           e3  == [e3a EXCEPT !.done = e3a.done \/ brokeNow]
-           v   == ValueF(s2.st, TRUE)                 \* the reward values the account after the step's market events
-           ruin == v.out = "broke"
-           rec(out, dn) == [call |-> "step", target |-> tgt, out |-> out, done |-> dn, now |-> e3.now,
-                            nlv |-> v.nlv, pre |-> IF track1 = <<>> THEN NaN ELSE LastOf(track1).pre, post |-> r.post,
-                            trades |-> r.trades, interest |-> r.interest, comm |-> r.comm, exec |-> req.alloc,
-                            pos |-> v.st.pos, stamp |-> IF executed THEN now1 ELSE NoT, entries |-> Len(track1)]
-       IN  IF ~chainOk \/ r.out = "error" \/ v.out = "error"
-           THEN \* the step raises something else than end-of-episode: nothing further is specified
-                /\ env' = [e3 EXCEPT !.done = TRUE]
-                /\ st' = v.st /\ h' = h1 /\ track' = track1 /\ elog' = elog \o s2.log
-                /\ ret' = [call |-> "step", out |-> "error", done |-> FALSE]
-                /\ hist' = Append(hist, rec("error", FALSE))
-           ELSE IF ruin /\ RuinStep = "raise"
-           THEN \* pinned code: EndOfEpisodeError escapes from the reward computation
-                /\ env' = [e3 EXCEPT !.ruined = TRUE]
-                /\ st' = v.st /\ h' = h1 /\ track' = track1 /\ elog' = elog \o s2.log
-                /\ ret' = [call |-> "step", out |-> "broke", done |-> e3.done]
-                /\ hist' = Append(hist, rec("broke", e3.done))
-           ELSE /\ env' = [e3 EXCEPT !.done = e3.done \/ ruin, !.ruined = ruin]
-                /\ st' = v.st /\ h' = h1 /\ track' = track1 /\ elog' = elog \o s2.log
-                /\ ret' = [call |-> "step", out |-> "ok", done |-> e3.done \/ ruin]
-                /\ hist' = Append(hist, rec("ok", e3.done \/ ruin))
+    /\ (ret.out \notin {"ended", "error"} \/ ret.call = "reset")   \* one refused call is enough; nothing is specified after a failure
+    /\ \E res \in {StepF(tgt)} :
+          /\ env' = res.env /\ st' = res.st /\ h' = res.h /\ track' = res.track
+          /\ elog' = elog \o res.log /\ gnow' = res.gnow /\ ret' = res.ret
+          /\ hist' = Append(hist, res.rec)
     /\ UNCHANGED cfg
 
 Next == Reset \/ \E tgt \in Targets : Step(tgt)
